@@ -149,6 +149,11 @@ def render_moltype(mt):
         if res["vs"]:
             a = [first[r] + k for k in res["vs"]["atoms"]]
             vs2.append(" ".join(map(str, a)) + " " + " ".join(res["vs"]["params"]))
+    angles = []
+    for r1, r2 in mt.get("angle_only_edges", []):
+        # the two residues share an angle (or nothing else): no bond, constraint or virtual site joins them
+        third = first[r2] + 1 if len(mt["residues"][r2]["atoms"]) > 1 else first[r1] + 1
+        angles.append(f"{first[r1]} {first[r2]} {third} 1 120.0 50.0")
     vs_only = {frozenset(e) for e in mt.get("vs_only_edges", [])}
     for r1, r2 in mt["res_edges"]:
         if frozenset((r1, r2)) in vs_only:
@@ -162,6 +167,9 @@ def render_moltype(mt):
     if bonds:
         lines.append("[ bonds ]")
         lines += bonds
+    if angles:
+        lines.append("[ angles ]")
+        lines += angles
     if vs2:
         lines.append("[ virtual_sites2 ]")
         lines += vs2
